@@ -109,3 +109,30 @@ def registrations(prog, cls):
         out.append({'kind': kind, 'name': nm, 'path': path, 'node': {'l': e[2]}, 'where': e[2], 'fn': ctors[0]})
     _REG_CACHE[key] = out
     return out
+
+
+_NAME_CACHE = {}
+
+
+def name_literal(prog, cls):
+    """the string literal a catalogue class's default constructor leaves in mmsname (what return_name hands out), or None"""
+    key = (id(prog), cls)
+    if key in _NAME_CACHE:
+        return _NAME_CACHE[key]
+    from . import terms
+    lit = None
+    ctors = [f for f in prog.methods_of(cls) if f.get('ctor') and len(f.params) == 0]
+    if ctors:
+        scalar = 'long double' if '<long double' in cls else 'double'
+        E = terms.Evaluator(prog, dyn_class=cls, scalar=scalar, opaque=('register_var', 'register_vec', 'init_var'))
+        try:
+            outs = E.run(ctors[0])
+        except RecursionError:
+            outs = []
+        vals = set(o.mem.get('mmsname') for o in outs)
+        if len(vals) == 1:
+            v = vals.pop()
+            if v is not None and v[0] == 'str':
+                lit = v[1]
+    _NAME_CACHE[key] = lit
+    return lit
